@@ -102,11 +102,15 @@ pub fn random_selection(r: &mut Rng, u: &Value) -> Value {
 /// aud / nonce strings incl. empty, Unicode, '~', '.', and 1 KB values
 pub fn gen_aud_nonce(r: &mut Rng) -> (String, String) {
     fn one(r: &mut Rng) -> String {
-        match r.below(14) {
+        match r.below(15) {
             0 => String::new(),
             // texts that are JSON literals (a verifier comparing "as text" would confuse them with
             // non-string claim values), and URL-shaped audiences with / without a trailing slash
             10 => (*r.pick(&["null", "true", "false", "20240131", "0", "-1", "1.0", "[1]", "{}", "[]", "\"n\""])).to_string(),
+            13 if r.chance(50) => crate::tamper::boundary_text(r),
+            // "scheme://" audiences whose scheme part is not an RFC 3986 scheme: an audience is an opaque
+            // string, not a URI to be validated
+            13 => (*r.pick(&["my_wallet://present", "com.example_app://verifier", "1password://rp", "://x", "see https://verifier.example", "https://", "urn:", "a b://c", "\u{e9}://x", "HTTPS://V.EXAMPLE"])).to_string(),
             11 => (*r.pick(&["https://rp.example.org", "https://rp.example.org/", "https://RP.example.org/cb", "https://rp.example.org:443/cb?x=1#f", "/", "//"])).to_string(),
             // texts that are JSON arrays of strings (not a multi-valued audience: ONE string), and
             // base64-looking values with and without '=' padding
